@@ -38,4 +38,36 @@ def checkAgainstTable (e : C03.Env) : List String :=
            if l ≤ half ∧ l + 32 ≥ half then [] else ["advertised security level " ++ toString l ++ " inconsistent with a " ++ toString (Nat.log2 c.r + 1) ++ "-bit order"]
          | none => ["no level"])
 
+/-- endomorphism constant reported by the library: β is a primitive cube root of unity mod p and ψ(G) = (βx, y) is on the curve -/
+def checkEndom (e : C03.Env) : List String :=
+  if !e.endom then [] else
+  match (e.kv.lookup "beta").bind parseHexNat, e.g with
+  | some beta, some (gx, gy) =>
+    let p := e.c.p
+    (if beta % p != 1 && beta * beta % p * beta % p == 1 then [] else ["beta is not a primitive cube root of unity mod p"]) ++
+    (if Relic.Spec.Curve.onCurve e.c (some (beta * gx % p, gy)) then [] else ["psi(G) is not on the curve"])
+  | _, _ => ["endomorphism curve without beta"]
+
+/-- `ep_glv k => k0 k1`: the decomposition satisfies k·G = k0·G + k1·ψ(G) and both parts have about half the length of the order -/
+def handle (ep : Option C03.Env) (w : Nat) (op : String) (args : List String) (got : String) : Option Verdict :=
+  match op, args with
+  | "ep_glv", [k] => do
+    let e ← ep
+    let k ← (parseBn w k).map (Relic.Model.Bn.toInt (2 ^ w))
+    if !e.endom then return { model := got, spec := ["no-endom"], tags := ["glv.none"] }
+    let beta ← (e.kv.lookup "beta").bind parseHexNat
+    let (gx, gy) ← e.g
+    match (got.splitOn " ").map (fun t => (parseBn w ((t.splitOn ":").getD 0 "")).map (Relic.Model.Bn.toInt (2 ^ w))) with
+    | [some k0, some k1] =>
+      let c := e.c
+      let psiG : Relic.Spec.Curve.Point := some (beta * gx % c.p, gy)
+      let lhs := Relic.Spec.Curve.mul c e.g (k % (e.n : Int))
+      let rhs := Relic.Spec.Curve.add c (Relic.Spec.Curve.mul c e.g k0) (Relic.Spec.Curve.mul c psiG k1)
+      let half := (Nat.log2 e.n + 1) / 2 + 3
+      let short := k0.natAbs < 2 ^ half && k1.natAbs < 2 ^ half
+      some { model := got, spec := [if lhs == rhs && short then got else "k0, k1 with k*G = k0*G + k1*psi(G), |k0|,|k1| < 2^" ++ toString half],
+             tags := ["glv", if k0 < 0 then "k0-" else "k0+", if k1 < 0 then "k1-" else "k1+"] }
+    | _ => some { model := got, spec := ["two integers"], tags := ["glv.parse"] }
+  | _, _ => none
+
 end Driver.C18
